@@ -65,24 +65,42 @@ def _nt_accepted(case, im):
     return case["op"] == "plan" and im.startswith("ok")
 
 
-def planner_prop(name, nontrivial, rule, graphs=None, stress=False, extra_streams=None, group_oracle=None):
+def planner_part(name, nontrivial, graphs=None, stress=False, group_oracle=None):
+    def part(rep, tier):
+        streams = planner_streams(tier, graphs, stress)
+        dis, fails = unit.correspond(rep, name, streams, oracle=planner.ORACLES[name], nontrivial=nontrivial,
+                                     group_oracle=group_oracle)
+        if graphs:
+            rep.coverage["exhaustive"] = True
+        rep.assumptions += [
+            "types are compared by go/types Identical (interned by the harness); go/types itself is trusted",
+            "the synthetic ProviderSets built by the harness have the shape the front end produces",
+        ]
+        return dis, fails
+    return part
+
+
+def register(name, rule, parts):
     @prop(name)
     def _check(rep, tier):
         rep.coverage["rule"] = rule
         lean_res = leanp.check_props(name)
         broken = unit.lean_part(rep, lean_res)
-        streams = planner_streams(tier, graphs, stress)
-        if extra_streams:
-            streams += extra_streams(tier)
-        dis, fails = unit.correspond(rep, name, streams, oracle=planner.ORACLES[name], nontrivial=nontrivial,
-                                     group_oracle=group_oracle)
-        rep.coverage["exhaustive"] = bool(graphs)
-        rep.assumptions += [
-            "types are compared by go/types Identical (interned by the harness); go/types itself is trusted",
-            "the synthetic ProviderSets built by the harness have the shape the front end produces",
-        ]
+        dis, fails = [], []
+        for part in parts:
+            d, f = part(rep, tier)
+            if d is None:
+                dis = None if dis == [] else dis
+                continue
+            if dis is not None:
+                dis += d
+            fails += f
         unit.conclude(rep, name, broken, dis, fails)
     return _check
+
+
+def planner_prop(name, nontrivial, rule, graphs=None, stress=False):
+    return register(name, rule, [planner_part(name, nontrivial, graphs, stress)])
 
 
 planner_prop("C05", _nt_dups,
@@ -96,7 +114,161 @@ planner_prop("C07", _nt_cyclic,
              graphs=(3, 4), stress=True)
 planner_prop("C08", _nt_unused,
              "random programs; non-trivial = complete well-formed program with >=1 superfluous direct item")
-planner_prop("C02", _nt_calls2,
-             "random programs; non-trivial = accepted plan with >=2 calls")
-planner_prop("C11", _nt_bind,
-             "random programs; non-trivial = program containing an interface binding")
+
+
+
+# ---- e2e tier -------------------------------------------------------------------------------
+
+def _tok(reply, prefixes):
+    return " ".join(t for t in (reply or "").split() if t.startswith(tuple(prefixes)) or t in ("ok", "err"))
+
+
+E2E = {
+    # name: (profiles, projection(ur) -> [(label, impl, model)], oracle tags, nontrivial(ur), rule)
+}
+
+
+def e2e_part(name, profiles, pairs, tags, nontrivial, n_quick=120, n_thorough=1200, build=True, runit=True):
+    def _check(rep, tier):
+        from . import e2e_eval as EV
+        total = n_quick if tier == "quick" else n_thorough
+        dis, fails = [], []
+        stats = {"programs": 0, "units": 0, "accepted": 0, "rejected": 0, "runs": 0, "batches": 0}
+        per = 150
+        done = 0
+        bno = 0
+        while done < total:
+            for tag, opts in profiles:
+                n = min(per, max(10, (total - done) // max(1, len(profiles))))
+                progs = EV.gen_batch(n, opts, "%s%s%d" % (name.lower(), tag, bno))
+                units, info = EV.evaluate(progs, want_build=build, want_run=runit)
+                stats["batches"] += 1
+                stats["programs"] += len(progs)
+                done += len(progs)
+                if info["unattributed"]:
+                    # wire printed something we could not attribute: for a crash this is C20's
+                    # business; here it makes the batch unusable and is reported as a broken tie
+                    dis.append({"stream": "e2e-" + tag, "request": None,
+                                "why": "unattributed wire output: %s" % info["unattributed"][:3]})
+                for ur in units:
+                    stats["units"] += 1
+                    rep.evaluations += 1
+                    imp = ur.impl or ""
+                    stats["accepted" if imp.startswith("ok") else "rejected"] += 1
+                    stats["runs"] += len(ur.runs)
+                    if nontrivial(ur):
+                        rep.nontrivial.add(ur.request)
+                    if stats["units"] <= 3:
+                        rep.sample({"program": ur.prog.name, "unit": ur.u.uid, "request": ur.request[:300],
+                                    "impl": imp[:300], "model": (ur.model or "")[:300],
+                                    "emit": ur.emit_impl, "runs": [(p, a) for p, a, b in ur.run_pairs[:3]]})
+                    if imp == "blocked":
+                        continue
+                    for label, a, b in pairs(ur):
+                        if a != b:
+                            dis.append({"stream": "e2e-%s/%s" % (tag, label), "request": ur.request, "impl": a, "model": b,
+                                        "program": ur.prog.name})
+                    bad = [(p, m) for p, m in (ur.run_bad + ur.emit_bad) if p in tags]
+                    if "C01" in tags:
+                        bad += [("C01", "generation succeeded but the package does not compile: " + m) for m in ur.build_errors[:3]]
+                        bad += [("C01", m) for m in ur.ir_problems]
+                        if imp in ("missing-injector", "no-output"):
+                            bad.append(("C01", "no generated implementation for injector %s (%s)" % (ur.u.inj["name"], imp)))
+                    if "C02" in tags:
+                        bad += [("C02", m) for m in ur.ir_problems]
+                        bad += [("C02", m) for m in planner.oracle_c02(ur.case, imp)]
+                    if bad:
+                        fails.append({"stream": "e2e-" + tag, "request": ur.request, "impl": imp, "why": [m for _, m in bad[:4]],
+                                      "program": ur.prog.name, "files": EV.G.materialise(ur.prog)})
+                bno += 1
+        rep.coverage["e2e"] = stats
+        rep.coverage["programs"] = stats["programs"]
+        rep.coverage["traces_validated_against_impl"] = stats["runs"]
+        rep.assumptions += ["the Go compiler, go/packages, go/types and the Go runtime are trusted",
+                            "abstract programs are materialised by /verif/vlib/e2e_gen.py; the IR of wire_gen.go is read by harness/irparse"]
+        return dis[:50], fails[:50]
+    return _check
+
+
+def e2e_prop(name, profiles, pairs, tags, nontrivial, rule, **kw):
+    return register(name, rule, [e2e_part(name, profiles, pairs, tags, nontrivial, **kw)])
+
+
+def _pairs_plan(ur):
+    return [("plan", ur.impl, ur.model)]
+
+
+def _pairs_c03(ur):
+    out = [("emit", _tok(ur.emit_impl, ["eb:"]), _tok(ur.emit_model, ["eb:"]))] if ur.emit_impl else []
+    out += [("run[%s]" % p, a, b) for p, a, b in ur.run_pairs if p]
+    return out
+
+
+def _pairs_c04(ur):
+    out = [("emit", _tok(ur.emit_impl, ["closure:", "retnil:"]), _tok(ur.emit_model, ["closure:", "retnil:"]))] if ur.emit_impl else []
+    out += [("run", a, b) for p, a, b in ur.run_pairs if not p]
+    return out
+
+
+def _pairs_c02(ur):
+    return [("plan", ur.impl, ur.model)] + [("run", a, b) for p, a, b in ur.run_pairs if not p]
+
+
+def _has(kinds):
+    return lambda ur: any(it["kind"] in kinds for it in ur.u.items) and (ur.impl or "").startswith("ok")
+
+
+P_DEFAULT = [("d", {})]
+P_CLEAN = [("c", {"p_cleanup": 0.7, "p_err": 0.55, "p_func": 0.7, "min_structs": 4, "max_structs": 9, "units": [1, 2]})]
+
+e2e_prop("C03", P_CLEAN + P_DEFAULT, _pairs_c03, {"C03"},
+         lambda ur: any(p for p, a, b in ur.run_pairs),
+         "generated programs (1-3 injectors, 3-9 struct types, providers with every mix of cleanup/error results, struct/"
+         "value/field steps interleaved) run under every single-failure plan, alternating with success runs; "
+         "non-trivial = injector executed under at least one failing plan")
+e2e_prop("C04", P_CLEAN + P_DEFAULT, _pairs_c04, {"C04"},
+         lambda ur: ur.u.inj["cleanup"] and (ur.impl or "").startswith("ok"),
+         "same programs, success plans; non-trivial = accepted injector with a cleanup result")
+e2e_prop("C01", P_DEFAULT + P_CLEAN, _pairs_plan, {"C01"},
+         lambda ur: (ur.impl or "").startswith("ok"),
+         "generated multi-package programs; every accepted package is compiled (go build) and every injector is "
+         "assigned to a variable of its declared function type; non-trivial = accepted injector")
+
+register("C02",
+         "unit tier: random provider-set DAGs through the real solve (non-trivial = accepted plan with >=2 calls); "
+         "e2e tier: generated programs, call list parsed from wire_gen.go and run-time traces of instrumented providers "
+         "(argument identities) compared with the model and with the declarative wiring oracle",
+         [planner_part("C02", _nt_calls2),
+          e2e_part("C02", P_DEFAULT, _pairs_c02, {"C02", "C11", "C12", "C13"}, lambda ur: len((ur.impl or "").split()) >= 3,
+                   n_quick=90, n_thorough=900)])
+register("C11",
+         "unit tier: random programs containing interface bindings (non-trivial); e2e tier: value/pointer receivers, "
+         "bindings to providers / struct providers / values / arguments / fields, consumers of I and of C; "
+         "identity seen by consumers of I = identity produced for C",
+         [planner_part("C11", _nt_bind),
+          e2e_part("C11", [("b", {"units": [1, 2]})], _pairs_c02, {"C11"},
+                   lambda ur: any(it["kind"] == "bind" for it in ur.u.items) and (ur.impl or "").startswith("ok"),
+                   n_quick=90, n_thorough=900)])
+e2e_prop("C12", [("s", {"p_func": 0.25, "units": [1, 2]})], _pairs_c02, {"C12"},
+         _has(("struct", "field")),
+         "generated programs rich in wire.Struct (listed fields and \"*\", wire:\"-\" tag on ID) and wire.FieldsOf "
+         "(value and pointer parents, pointer-to-field outputs); run-time: which fields are set, with which identity, "
+         "and whether the field pointer aliases the parent's field; non-trivial = accepted program with a struct or field provider")
+
+
+def stream_part(name, streams_fn, nontrivial=None, exhaustive=False):
+    def part(rep, tier):
+        dis, fails = unit.correspond(rep, name, streams_fn(tier), oracle=planner.ORACLES.get(name), nontrivial=nontrivial)
+        if exhaustive:
+            rep.coverage["exhaustive"] = True
+        return dis, fails
+    return part
+
+
+register("C09",
+         "exhaustive: every result list of length 0..4 over 8 result-type varieties (value, error, func(), named func "
+         "type, alias of func(), other func type, named error type, basic) through the real funcOutput and "
+         "processFuncProvider; every parameter list of length <=4 over three types (spelled afresh per occurrence); "
+         "non-trivial = list of length >= 2",
+         [stream_part("C09", lambda tier: [("signatures", "sig", ["-nodes", 4])],
+                      nontrivial=lambda case, im: len(case.get("raw", [])) >= 3, exhaustive=True)])
